@@ -20,6 +20,9 @@ structure CloseCfg where
   holderSelected : Nat
   /-- the counterparty's `our_to_self_delay` (imposed on the node's delayed outputs) -/
   counterpartySelected : Nat
+  /-- (counterparty close only) the commitment that confirmed is the counterparty's PREVIOUS, not yet revoked one
+      (`prev_counterparty_commitment_txid`: the node had already signed a newer one) rather than its latest -/
+  counterpartyPrev : Bool := false
   deriving DecidableEq, Repr, Inhabited
 
 /-- what the node's ChannelMonitor stores (ChannelMonitor::new, translated) -/
@@ -98,10 +101,21 @@ def Entry.learn (c : CloseCfg) (e : Entry) : Entry := match e.stage with
     else e
   | _ => e
 
+/-- does provide_payment_preimage scan the commitment that confirmed?  (translated per branch: the holder's, the
+    counterparty's latest, the counterparty's previous unrevoked one) -/
+def CloseCfg.scanRuns (c : CloseCfg) : Bool :=
+  if c.holderClose then holderScanRuns else if c.counterpartyPrev then counterpartyScanOnPrevious else counterpartyScanOnCurrent
+
+/-- the entries provide_payment_preimage hands a claim request for -/
+def HLedger.sel (hl : HLedger) (matching : Nat) : List Nat :=
+  if hl.cfg.scanRuns then
+    selectIdx (if hl.cfg.holderClose then holderPreimageIter else counterpartyPreimageIter)
+      (preimageScanAccepts hl.cfg matching) (hl.ledger.entries.zip hl.hashes)
+  else []
+
 /-- mirrors provide_payment_preimage on a monitor whose closing commitment has confirmed -/
 def HLedger.provide (hl : HLedger) (matching : Nat) : HLedger :=
-  let mode := if hl.cfg.holderClose then holderPreimageIter else counterpartyPreimageIter
-  let sel := selectIdx mode (preimageScanAccepts hl.cfg matching) (hl.ledger.entries.zip hl.hashes)
+  let sel := hl.sel matching
   { hl with ledger := { hl.ledger with entries := hl.ledger.entries.mapIdx fun i e => if sel.contains i then e.learn hl.cfg else e } }
 
 inductive HOp where
